@@ -12,8 +12,8 @@ MANIFEST = {
     "technique": "Rocq proof over the Factory/Resolve model + vm_compute correspondence on generated wiring scenarios",
 }
 
-PROFILES = [(Profile(p_wrap=0.0, n_procs=(0, 1), p_cycle_bias=0.9, fields=(1, 4), p_lazy=0.1), 380, 4400), (Profile(p_wrap=0.2, p_cycle_bias=0.9), 120, 1600),
-            (Profile(p_wrap=0.1, n_procs=(1, 2), p_cycle_bias=0.9, p_init=0.9, p_lazy=0.3, p_initget=0.6, p_short=0.3), 100, 1000)]
+PROFILES = [(Profile(p_wrap=0.0, n_procs=(0, 1), p_cycle_bias=0.9, fields=(1, 4), p_lazy=0.1, p_crowd=0.005), 380, 4400), (Profile(p_wrap=0.2, p_cycle_bias=0.9, p_crowd=0.005), 120, 1600),
+            (Profile(p_wrap=0.1, n_procs=(1, 2), p_cycle_bias=0.9, p_init=0.9, p_lazy=0.3, p_initget=0.6, p_short=0.3, p_crowd=0.0), 100, 1000)]
 
 RULE = 'cycle-biased graphs (single pointer, interface, slice, by-name edges), names drawn so cycles sit at every position of the alphabetical creation order; non-trivial = the static provider graph has a cycle'
 
